@@ -587,6 +587,37 @@ def worker(cfg):
             return "returned"
         core.explore(body, stats=stats)
 
+    elif kind == "hash_e2e":
+        # the whole real tomtom() with and without column hashing on coarse-grid PWM sets that contain duplicated target columns
+        # (merged and weighted by the hashing path): identical results.  Scratch memory is arbitrary (havoc), values are concrete.
+        from . import C13 as _C13
+        qs, ts = _C13.case(cfg["seed"])
+        ts = [list(t) for t in ts] + [list(ts[0])[::-1] + [ts[-1][0]]]          # duplicates of existing columns in another target
+        numba_s = shims["numba"]
+        numba_s.get_thread_id = lambda: 0
+        tt.numba.get_thread_id = numba_s.get_thread_id
+        arr = lambda p_: T.NDArray(np.array(p_, dtype=object).T.copy(), dtype="float64")
+
+        def body(ctx):
+            res = []
+            for ntb in (None, 100):
+                try:
+                    r_ = tt.tomtom([arr(q_) for q_ in qs], [arr(t_) for t_ in ts], n_score_bins=cfg["n_score_bins"], n_median_bins=50, n_target_bins=ntb, n_cache=30,
+                                   reverse_complement=cfg["rc"], n_jobs=1)
+                except Exception as e:
+                    if isinstance(e, core.Inconclusive):
+                        raise
+                    add("hash_e2e:raises", "tomtom(n_target_bins=%s) raised %s: %s" % (ntb, type(e).__name__, e), dict(cfg, kind="hash", n_target_bins_real=100, n_score_bins_real=50))
+                    return "raised"
+                res.append(r_.a)
+            ctx.stats.obligations += 1
+            if T.has_sym(res[0]) or T.has_sym(res[1]) or not np.allclose(np.array(res[0].tolist(), dtype=float), np.array(res[1].tolist(), dtype=float), atol=1e-9):
+                add("hash_e2e:differs", "tomtom with column hashing differs from tomtom without it although the binning is injective on these columns", dict(cfg, kind="hash", n_target_bins_real=100, n_score_bins_real=50))
+            else:
+                ctx.stats.discharged += 1
+            return "returned"
+        core.explore(body, stats=stats, reset=ld.restore)
+
     elif kind == "rcflag":
         # the wrapper's `if reverse_complement:` statement under every truthy / falsy flag value a caller may pass, together with
         # the int(flag) handed to the compiled core: the target list is doubled exactly when the core is told so
@@ -742,7 +773,7 @@ def configs(tier):
            dict(kind="bin_tail", nq=1, NT=2, n_bins=4, z_min=(-13, 10), z_max=(2, 5), counts=[1, 2]), dict(kind="bin_tail", nq=2, NT=2, n_bins=10, z_min=(-13, 10), z_max=(2, 5), counts=[1, 1]),
            dict(kind="bin_tail", nq=2, NT=3, n_bins=5, z_min=(-1, 1), z_max=(1, 4), counts=[2, 1, 1]),
            dict(kind="median", n=3, n_bins=3, counts=[1, 1, 1]), dict(kind="median", n=3, n_bins=4, counts=[1, 2, 1]), dict(kind="median", n=4, n_bins=3, counts=[1, 1, 1, 1]),
-           dict(kind="rclist", lens=[2, 1, 3]), dict(kind="rcflag", lens=[2, 1]), dict(kind="hashprep", n_target_bins=3, cols=2)]
+           dict(kind="rclist", lens=[2, 1, 3]), dict(kind="rcflag", lens=[2, 1]), dict(kind="hash_e2e", seed=1, rc=False, n_score_bins=6), dict(kind="hash_e2e", seed=2, rc=True, n_score_bins=6), dict(kind="hashprep", n_target_bins=3, cols=2)]
     if not q:
         cf += [dict(kind="null", nq=2, n_bins=3, t_max=3, offset=2), dict(kind="null", nq=3, n_bins=2, t_max=3, offset=1), dict(kind="null", nq=3, n_bins=3, t_max=4, offset=1),
                dict(kind="pvalues", nq=3, T_lens=[2, 1], n_scores=6, offset=1, gmax=1), dict(kind="pvalues", nq=2, T_lens=[4], n_scores=4, offset=0, gmax=2),
@@ -750,7 +781,8 @@ def configs(tier):
                dict(kind="self", nq=3, others=[2], n_scores=9, offset=1, gmax=2), dict(kind="self", nq=4, others=[], n_scores=12, offset=1, gmax=1, strict=True),
                dict(kind="dist", A=4, NT=3, NQ=2, i=0), dict(kind="dist", A=4, NT=4, NQ=1, i=0, self_col=True),
                dict(kind="bin_tail", nq=3, NT=3, n_bins=20, z_min=(-7, 5), z_max=(3, 10), counts=[1, 3, 2]), dict(kind="bin_tail", nq=2, NT=4, n_bins=100, z_min=(-141, 100), z_max=(9, 10), counts=[1, 1, 2, 1]),
-               dict(kind="median", n=4, n_bins=4, counts=[1, 2, 1, 3]), dict(kind="median", n=4, n_bins=6, counts=[2, 1, 1, 1])      # n = 5 values: z3 returns unknown within the 60 s query limit (measured), so 4 is the stated bound]
+               dict(kind="median", n=4, n_bins=4, counts=[1, 2, 1, 3]), dict(kind="median", n=4, n_bins=6, counts=[2, 1, 1, 1])]
+    # (binned median of 5 values: z3 returns unknown within the 60 s query limit - measured - so 4 values is the stated bound)
     return cf
 
 
